@@ -127,15 +127,23 @@ def check(ctx):
             rounds = [drawn[i * ts:(i + 1) * ts] for i in range(nsel)]
             if len(sel) != nsel or len(drawn) != nsel * ts:
                 C.issue('tournament-length', 'oracle', rp, selected=len(sel))
+            value_draws = all(any(x == f for f in fit) for x in drawn)
             for s_, rd in zip(sel, rounds):
                 s_ = int(s_)
-                if not (0 <= s_ < m_) or fit[s_] != min(rd) or any(fit[j] == fit[s_] for j in range(s_)):
+                # draw-independent part: a valid index that is the FIRST holder of its fitness value
+                if not (0 <= s_ < m_) or any(fit[j] == fit[s_] for j in range(s_)):
                     C.issue('tournament-not-first-holder-of-round-minimum', 'oracle', rp, selected=[int(x) for x in sel], rounds=rounds)
                     break
-            if nsel:
+                # when the implementation draws fitness values (np.random.choice(fitness)): the round minimum
+                if value_draws and fit[s_] != min(rd):
+                    C.issue('tournament-not-first-holder-of-round-minimum', 'oracle', rp, selected=[int(x) for x in sel], rounds=rounds)
+                    break
+            if nsel and value_draws:
                 o = drv.ask(f"s.tour {enc_ints(fkey(x) for x in fit)} {';'.join(enc_ints(fkey(x) for x in rd) for rd in rounds)}")
-                if dec_ints(o) != [int(x) for x in sel]:
+                if o == 'error' or dec_ints(o) != [int(x) for x in sel]:
                     C.issue('tournament-mismatch', 'correspondence', rp, model=o, real=[int(x) for x in sel])
+            elif nsel:
+                C.issue('tournament-draws-not-fitness-values', 'correspondence', rp, drawn=drawn[:6])
             C.case(key=('t', seed, tuple(fit), nsel), nontrivial=mode != 'rand' and nsel > 0, kind='tournament-' + mode,
                    sample=dict(rp, selected=[int(x) for x in sel], rounds=rounds) if mode == 'ties' and nsel > 1 else None)
         # ---------------- pairwise: every length 0..9
